@@ -195,3 +195,108 @@ def layer_miri_gxv(root, pid, tier, seed, layer):
                        "target": "aarch64-unknown-linux-gnu", "flags": "-Zmiri-tree-borrows, isolation off"}
     out["evaluations"] = evals
     return out
+
+
+# ---------------------------------------------------------------- valgrind memcheck
+
+def _first_repo_frame(block):
+    """(site, function) of the innermost frame under /repo, else of the innermost frame that is neither std nor harness"""
+    fallback = None
+    for line in block.splitlines():
+        m = re.search(r"\(([^()]+\.(?:rs|c)):(\d+)\)", line)
+        if not m or "/rustc/" in m.group(1) or "/verif/harness/" in m.group(1):
+            continue
+        fn = re.search(r"(?:at|by) 0x[0-9A-F]+: (.+?) \(", line)
+        path = m.group(1)
+        k = path.find("/repo/")
+        hit = ("%s:%s" % (path[k + 6:] if k >= 0 else path.split("/registry/src/")[-1], m.group(2)), fn.group(1)[:80] if fn else "?")
+        if k >= 0:
+            return hit
+        fallback = fallback or hit
+    return fallback or ("?", "?")
+
+
+def _memcheck_errors(txt):
+    """error blocks of a memcheck text log: a headline followed by `at 0x..`/`by 0x..` frames"""
+    res = []
+    for b in re.split(r"\n==\d+== \n", txt):
+        lines = [re.sub(r"^==\d+== ?", "", l) for l in b.splitlines() if re.match(r"^==\d+==", l)]
+        if len(lines) < 2 or not re.match(r"\s+at 0x", lines[1]):
+            continue
+        kind = re.sub(r"\d+", "N", lines[0].strip())[:80]
+        if kind.startswith(("HEAP SUMMARY", "ERROR SUMMARY", "For ", "Use ", "Warning", "Thread ")):
+            continue
+        site, fn = _first_repo_frame("\n".join(lines[1:]))
+        res.append((kind, site, fn, lines))
+    return res
+
+
+def layer_memcheck(root, pid, tier, seed, layer):
+    """Runs the monitor binary itself (the same `gxv CNN` workload, scaled down) under valgrind memcheck;
+    children that are gxv workers are traced too, git and the shell are not. Every memcheck error context is a
+    violation keyed by error kind and the first frame that is neither std nor the harness. The oracle verdicts
+    of the run are merged as well (the workload is the monitor's own)."""
+    gxv = os.path.join(root, ".build", "verif", "verif", "gxv")
+    out = {"name": "memcheck", "coverage": {}, "violations": [], "inconclusive": [], "evaluations": 0}
+    if not os.path.exists("/usr/bin/valgrind") or not os.path.exists(gxv):
+        out["inconclusive"].append("valgrind or the monitor binary is missing")
+        return out
+    scale = layer.get("scale_quick", 3) if tier == "quick" else layer.get("scale_thorough", 20)
+    budget = layer.get("budget_quick", 60) if tier == "quick" else layer.get("budget_thorough", 300)
+    resdir = os.path.join(root, ".build", "results", "vg-%s-%d" % (pid, os.getpid()))
+    os.makedirs(resdir, exist_ok=True)
+    os.makedirs(os.path.join(root, "replays", pid), exist_ok=True)
+    res = os.path.join(resdir, "out.json")
+    e = dict(os.environ)
+    e.update({"GXV_SCALE": str(scale), "GXV_BUDGET_S": str(budget), "GXV_VALGRIND": "1", "GXV_EXE": gxv,
+              "GXV_REPLAY_DIR": os.path.join(root, "replays", pid)})
+    cmd = ["valgrind", "--tool=memcheck", "--leak-check=no", "--error-exitcode=0", "--num-callers=24", "--fullpath-after=",
+           "--trace-children=yes", "--trace-children-skip=/usr/*,/bin/*,/sbin/*", "--log-file=%s/vg.%%p.log" % resdir,
+           gxv, pid, "--tier", "quick", "--seed", str(seed), "--out", res]
+    t0 = time.time()
+    try:
+        p = subprocess.run(cmd, env=e, stdout=subprocess.PIPE, stderr=subprocess.PIPE, text=True,
+                           timeout=budget * 8 + 600, start_new_session=True)
+        rc = p.returncode
+    except subprocess.TimeoutExpired:
+        rc = "timeout"
+    logs = [os.path.join(resdir, f) for f in os.listdir(resdir) if f.startswith("vg.")]
+    contexts = 0
+    procs = 0
+    for lf in logs:
+        txt = open(lf, errors="replace").read()
+        if "ERROR SUMMARY" in txt:
+            procs += 1
+        for kind, site, fn, lines in _memcheck_errors(txt):
+            sig = "memcheck|%s|%s" % (kind, site)
+            contexts += 1
+            ex = next((v for v in out["violations"] if v["signature"] == sig), None)
+            if ex:
+                ex["count"] += 1
+                continue
+            rp = os.path.join(root, "replays", pid, "memcheck-%d.txt" % (len(out["violations"]) + 1))
+            open(rp, "w").write("GXV_SCALE=%s %s\n\n%s\n" % (scale, " ".join(cmd), "\n".join(lines)))
+            out["violations"].append({"signature": sig, "what": "valgrind memcheck: %s in %s" % (lines[0].strip()[:120], fn),
+                                      "replay": rp, "count": 1})
+    doc = None
+    if os.path.exists(res):
+        try:
+            doc = json.load(open(res))
+        except Exception:
+            doc = None
+    if rc == "timeout":
+        out["inconclusive"].append("memcheck run timed out")
+    elif doc is None:
+        out["inconclusive"].append("memcheck run produced no result (rc=%s): %s" % (rc, (p.stderr or "")[-300:]))
+    else:
+        out["evaluations"] = doc.get("evaluations", 0)
+        for v in doc.get("violations", []):
+            if not any(x["signature"] == v["signature"] for x in out["violations"]):
+                out["violations"].append(dict(v))
+    out["coverage"] = {"tool": "valgrind-3.19 memcheck (--leak-check=no, children of the monitor traced, git not)",
+                       "processes_traced": procs, "error_contexts": contexts, "scale_percent": scale,
+                       "evaluations_under_memcheck": out["evaluations"],
+                       "distinct_under_memcheck": (doc or {}).get("distinct_nontrivial", 0), "wall_s": round(time.time() - t0, 1)}
+    import shutil
+    shutil.rmtree(resdir, ignore_errors=True)
+    return out
